@@ -53,6 +53,22 @@ TARGETS = [
     ('cardutil/mciipm.py', 'VbsWriter.write', {'record': 'bytes'}, None),
     ('cardutil/mciipm.py', 'VbsWriter.close', {}, None),
     ('cardutil/mciipm.py', 'VbsWriter.__exit__', {'exc_type': 'none', 'exc_val': 'none', 'exc_tb': 'none'}, None),
+    # PIN blocks: read-only methods (the object's pin / card number / random value are parameters), class methods whose
+    # `return cls(pin, ...)` is rendered as returning the pin the new object is built from
+    ('cardutil/pinblock.py', 'Iso0PinBlock.to_bytes', {}, 'bytes'),
+    ('cardutil/pinblock.py', 'Iso0PinBlock.from_bytes', {}, 'str',
+     {'classmethod': True, 'params': [('pin_block', 'bytes'), ('card_number', 'str')]}),
+    ('cardutil/pinblock.py', 'Iso4PinBlock.to_bytes', {}, 'bytes'),
+    ('cardutil/pinblock.py', 'Iso4PinBlock.from_bytes', {}, 'str',
+     {'classmethod': True, 'params': [('pin_block', 'bytes')]}),
+    # FRAGMENTS of functions whose other statements call the cipher library: the decimalisation at the end of
+    # calculate_pvv (from the first assignment to values_pass1, with the ciphertext `ct` as parameter), and the
+    # combination loop at the start of get_zone_master_key (up to the assignment to binary_key, returning p1)
+    ('cardutil/pinblock.py', 'calculate_pvv', {}, 'str',
+     {'fragment': ('from', 'values_pass1'), 'params': [('ct', 'bytes')], 'lean_name': 'calculate_pvv_decimalise'}),
+    ('cardutil/key.py', 'get_zone_master_key', {}, 'str',
+     {'fragment': ('until', 'binary_key', 'p1'), 'params': [('key_parts', ('list', 'str'))],
+      'lean_name': 'get_zone_master_key_combine'}),
 ]
 
 # per class: the fields a method may use, and the wrapped file object as a `sink` (its write(e) appends to self_out) or a
@@ -61,7 +77,9 @@ SELF_STATE = {'Block1014': {'fields': [('remaining_chars', 'int')], 'sink': 'fil
               'Unblock1014': {'fields': [('buffer', 'bytes')], 'source': 'file_obj'},
               'VbsReader': {'fields': [('record_number', 'int'), ('last_record', 'bytes')], 'source': 'vbs_data',
                             'signals': True},
-              'VbsWriter': {'fields': [('_finalised', 'bool')], 'file': 'out_file'}}
+              'VbsWriter': {'fields': [('_finalised', 'bool')], 'file': 'out_file'},
+              'Iso0PinBlock': {'fields': [('pin', 'str'), ('card_number', 'str')], 'readonly': True},
+              'Iso4PinBlock': {'fields': [('pin', 'str'), ('random_value', 'int')], 'readonly': True}}
 
 EXC = {'AssertionError': 'assertionError', 'ValueError': 'valueError', 'IndexError': 'indexError',
        'TypeError': 'typeError', 'KeyError': 'keyError'}
@@ -266,10 +284,34 @@ class Translator:
                     if t != 'int':
                         raise Untranslatable('zero-padded width on a non-int')
                     parts.append(f'(Rt.fmtIntW {int(v.format_spec.values[0].value)} {c})')
+                elif isinstance(v, ast.FormattedValue) and v.conversion == -1 and isinstance(v.format_spec, ast.JoinedStr):
+                    parts.append(self.format_spec(v, env))
                 else:
                     raise Untranslatable('format specification in an f-string')
             return '(' + ' ++ '.join(parts) + ')' if parts else '[]', 'str'
         raise Untranslatable(f'expression {type(node).__name__}')
+
+    def format_spec(self, v, env):
+        """f'{n:016x}', f'{n:0{w}x}' (an int as zero-padded lowercase hex), f'{s:f<16}' (a str left-justified with a
+        fill character)"""
+        c, t = self.expr(v.value, env)
+        spec = v.format_spec.values
+        if t == 'int' and len(spec) == 1 and isinstance(spec[0], ast.Constant) and isinstance(spec[0].value, str) \
+                and len(spec[0].value) >= 3 and spec[0].value[0] == '0' and spec[0].value[-1] == 'x' \
+                and spec[0].value[1:-1].isdigit():
+            return f'(Rt.fmtHexW {self.int_lit(int(spec[0].value[1:-1]))} {c})'
+        if t == 'int' and len(spec) == 3 and isinstance(spec[0], ast.Constant) and spec[0].value == '0' \
+                and isinstance(spec[2], ast.Constant) and spec[2].value == 'x' \
+                and isinstance(spec[1], ast.FormattedValue) and spec[1].conversion == -1 and spec[1].format_spec is None:
+            w, wt = self.expr(spec[1].value, env)
+            if wt != 'int':
+                raise Untranslatable('width of a format specification is not an int')
+            return f'(Rt.fmtHexW {w} {c})'
+        if t in ('str', 'char') and len(spec) == 1 and isinstance(spec[0], ast.Constant) and isinstance(spec[0].value, str) \
+                and len(spec[0].value) >= 3 and spec[0].value[1] == '<' and spec[0].value[2:].isdigit() \
+                and spec[0].value[2] != '0':
+            return f'(Rt.ljust {self.int_lit(int(spec[0].value[2:]))} {ord(spec[0].value[0])} {self.coerce(c, t, "str")})'
+        raise Untranslatable('format specification in an f-string')
 
     def binop(self, node, env):
         lc, lt = self.expr(node.left, env)
@@ -283,6 +325,12 @@ class Translator:
                     return f'({self.coerce(lc, lt, want)} ++ {self.coerce(rc, rt, want)})', want
             if is_seq(lt) and lt == rt:
                 return f'({lc} ++ {rc})', lt
+            if {lt, rt} == {('list', 'char'), ('list', 'str')}:
+                # lists of one-character strings and of strings: the same thing in Python
+                up = lambda c, t: f'(List.map (fun (ch : Nat) => [ch]) {c})' if t == ('list', 'char') else c  # noqa: E731
+                return f'({up(lc, lt)} ++ {up(rc, rt)})', ('list', 'str')
+        if isinstance(op, ast.BitXor) and lt == 'int' and rt == 'int':
+            return f'(Rt.xor {lc} {rc})', 'int'
         if isinstance(op, ast.Sub) and lt == 'int' and rt == 'int':
             return f'({lc} - {rc})', 'int'
         if isinstance(op, ast.Mult):
@@ -386,6 +434,20 @@ class Translator:
 
     def call(self, node, env):
         f = node.func
+        if isinstance(f, ast.Attribute) and len(node.keywords) == 1 and node.keywords[0].arg == 'byteorder' \
+                and isinstance(node.keywords[0].value, ast.Constant) and node.keywords[0].value.value == 'big' \
+                and len(node.args) == 1:
+            if f.attr == 'from_bytes' and isinstance(f.value, ast.Name) and f.value.id == 'int':
+                c, t = self.expr(node.args[0], env)
+                if t not in ('bytes', 'asciibytes'):
+                    raise Untranslatable('int.from_bytes of a non-bytes value')
+                return f'(Rt.intFromBytes {c})', 'int'
+            if f.attr == 'to_bytes':
+                c, t = self.expr(f.value, env)
+                n = self.const_int(node.args[0])
+                if t != 'int' or n is None or n <= 0:
+                    raise Untranslatable('to_bytes needs an int and a positive literal size')
+                return self.hoist(f'(Rt.toBytes {n} {c})', 'bytes')
         if node.keywords:
             raise Untranslatable('keyword arguments')
         if isinstance(f, ast.Name):
@@ -412,6 +474,22 @@ class Translator:
                 if t == 'int':
                     return c, 'int'
                 raise Untranslatable(f'int() of {t}')
+            if name == 'int' and len(args) == 2 and self.const_int(args[1]) == 16:
+                c, t = self.expr(args[0], env)
+                if t in ('str', 'char', 'asciibytes'):
+                    return self.hoist(f'(Rt.intHex {self.coerce(c, "str" if t == "asciibytes" else t, "str")})', 'int')
+                raise Untranslatable(f'int(_, 16) of {t}')
+            if name == 'format' and len(args) == 2 and isinstance(args[1], ast.Constant) and args[1].value == 'x':
+                c, t = self.expr(args[0], env)
+                if t != 'int':
+                    raise Untranslatable('format(_, "x") of a non-int')
+                return f'(Rt.fmtHex {c})', 'str'
+            if name == 'max' and len(args) == 2:
+                a, ta = self.expr(args[0], env)
+                b, tb = self.expr(args[1], env)
+                if ta != 'int' or tb != 'int':
+                    raise Untranslatable('max of non-ints')
+                return f'(max {a} {b})', 'int'
             if name == 'divmod' and len(args) == 2:
                 a, ta = self.expr(args[0], env)
                 b, tb = self.expr(args[1], env)
@@ -490,7 +568,22 @@ class Translator:
                 if t not in ('bytes', 'asciibytes'):
                     raise Untranslatable('hexlify of a non-bytes value')
                 return f'(Rt.hexlify {c})', 'asciibytes'
+            if isinstance(f.value, ast.Name) and f.value.id == 'binascii' and f.attr in ('a2b_hex', 'unhexlify') \
+                    and len(node.args) == 1:
+                c, t = self.expr(node.args[0], env)
+                if t not in ('str', 'asciibytes'):
+                    raise Untranslatable('unhexlify of something that is not text')
+                return self.hoist(f'(Rt.unhexlify {c})', 'bytes')
+            if f.attr == 'join' and isinstance(f.value, ast.Constant) and f.value.value == '' and len(node.args) == 1:
+                c, t = self.expr(node.args[0], env)
+                if t == ('list', 'char'):
+                    return c, 'str'
+                if t == ('list', 'str'):
+                    return f'(Rt.joinStr {c})', 'str'
+                raise Untranslatable(f'join of {t}')
             c, t = self.expr(f.value, env)
+            if f.attr == 'isalpha' and not node.args and t == 'char':
+                return f'(Rt.isAlphaAscii {c})', 'bool'
             if f.attr == 'isdigit' and not node.args and t == 'char':
                 return f'(Gen.strDigits.contains {c})', 'bool'
             if f.attr == 'decode' and not node.args and t == 'asciibytes':
@@ -871,18 +964,60 @@ class SelfRewriter(ast.NodeTransformer):
         return self.generic_visit(node)
 
 
-def translate_function(mod_ast, fdef, ptypes, ret, known, cls=None):
+class ClsReturn(ast.NodeTransformer):
+    """in a class method, `return cls(x, ...)` builds the new object from x: rendered as `return x`"""
+
+    def visit_Return(self, node):
+        v = node.value
+        if isinstance(v, ast.Call) and isinstance(v.func, ast.Name) and v.func.id == 'cls' and v.args:
+            return ast.copy_location(ast.Return(value=v.args[0]), node)
+        return node
+
+
+def fragment_of(body, spec):
+    """('from', name): the statements from the first assignment to `name` on; ('until', name, result): the statements
+    before the first assignment to `name`, followed by `return result`"""
+    def assigns(st, name):
+        return isinstance(st, ast.Assign) and any(isinstance(t, ast.Name) and t.id == name for t in st.targets)
+    idx = [i for i, st in enumerate(body) if assigns(st, spec[1])]
+    if not idx:
+        raise Untranslatable(f'no assignment to {spec[1]} to cut the fragment at')
+    if spec[0] == 'from':
+        return body[idx[0]:]
+    return body[:idx[0]] + [ast.Return(value=ast.Name(id=spec[2], ctx=ast.Load()))]
+
+
+def translate_function(mod_ast, fdef, ptypes, ret, known, cls=None, opts=None):
+    opts = opts or {}
     params, defaults = [], {}
     args = fdef.args
-    if args.vararg or args.kwarg or args.kwonlyargs or args.posonlyargs:
+    if 'params' not in opts and (args.vararg or args.kwarg or args.kwonlyargs or args.posonlyargs):
         raise Untranslatable('argument kinds')
     arglist = list(args.args)
-    lean_name = fdef.name
+    lean_name = opts.get('lean_name', fdef.name)
     state_ast = None
     value_type = None
     signals = False
     body = fdef.body
-    if cls is not None:
+    if 'fragment' in opts:
+        body = fragment_of([st for st in body], opts['fragment'])
+    readonly = cls is not None and (opts.get('classmethod') or SELF_STATE.get(cls, {}).get('readonly'))
+    if readonly:
+        if opts.get('classmethod'):
+            if not arglist or arglist[0].arg != 'cls':
+                raise Untranslatable('class method without cls')
+            body = [ClsReturn().visit(st) for st in __import__('copy').deepcopy(body)]
+        else:
+            if not arglist or arglist[0].arg != 'self' or cls not in SELF_STATE:
+                raise Untranslatable('method without a described self state')
+            for f, t in SELF_STATE[cls]['fields']:
+                params.append((f'self_{f}', t))
+        arglist = arglist[1:]
+        lean_name = opts.get('lean_name', f'{cls}_{fdef.name}'.replace('__', ''))
+    if 'params' in opts:
+        ptypes = dict(opts['params'])
+        arglist = [ast.arg(arg=n) for n, _ in opts['params']]
+    if cls is not None and not readonly:
         if not arglist or arglist[0].arg != 'self' or cls not in SELF_STATE:
             raise Untranslatable('method without a described self state')
         spec = SELF_STATE[cls]
@@ -918,6 +1053,8 @@ def translate_function(mod_ast, fdef, ptypes, ret, known, cls=None):
         params.append((a.arg, ptypes[a.arg]))
     hints = {k: v for k, v in ptypes.items() if k not in [a.arg for a in arglist]}
     for a, d in zip(args.args[len(args.args) - len(args.defaults):], args.defaults):
+        if 'params' in opts:
+            break
         if not isinstance(d, ast.Constant):
             raise Untranslatable('non-literal default')
         defaults[a.arg] = d.value
@@ -931,12 +1068,13 @@ def translate_function(mod_ast, fdef, ptypes, ret, known, cls=None):
         tr.signals = signals
         tr.cls = cls
         tr.state_names = [n for n, _ in params[:len(params) - len(arglist)]] if cls is not None else []
-        if cls is not None:
+        use = body
+        if cls is not None and not opts.get('classmethod'):
             import copy
             rw = SelfRewriter(tr, cls, SELF_STATE[cls])
-            body = [ast.fix_missing_locations(rw.visit(copy.deepcopy(st))) for st in fdef.body]
+            use = [ast.fix_missing_locations(rw.visit(copy.deepcopy(st))) for st in body]
         try:
-            code = tr.stmts(body, env, ret)
+            code = tr.stmts(use, env, ret)
         except NeedMonad:
             continue
         sig = ' '.join(f'({n} : {lean_type(t)})' for n, t in params)
@@ -959,7 +1097,9 @@ def translate_all(repo=REPO):
     status = {}
     known_by_module = {}
     asts = {}
-    for path, name, ptypes, ret in TARGETS:
+    for target in TARGETS:
+        path, name, ptypes, ret = target[:4]
+        opts = target[4] if len(target) > 4 else {}
         try:
             if path not in asts:
                 asts[path] = ast.parse(open(os.path.join(repo, path)).read())
@@ -977,13 +1117,14 @@ def translate_all(repo=REPO):
             if len(fdefs) != 1:
                 raise Untranslatable('function not found (or defined more than once)')
             known = known_by_module.setdefault(path, {})
-            text, fn = translate_function(mod, fdefs[0], ptypes, ret, known, cls)
+            text, fn = translate_function(mod, fdefs[0], ptypes, ret, known, cls, opts)
             known[name] = fn
-            out.append(f'/-- `{path}: {name}` -/')
+            what = f' (fragment {opts["fragment"]})' if 'fragment' in opts else ''
+            out.append(f'/-- `{path}: {name}`{what} -/')
             out.append(text)
-            status[name] = 'ok'
+            status[opts.get('lean_name', name)] = 'ok'
         except (Untranslatable, SyntaxError, OSError) as ex:
-            status[name] = f'untranslatable: {ex}'
+            status[opts.get('lean_name', name)] = f'untranslatable: {ex}'
     out += ['end Cardutil.Src', '']
     return '\n'.join(out), status
 
